@@ -272,11 +272,11 @@ func FirstLine(s string) string {
 
 // Residue is what a core left behind when it exited.
 type Residue struct {
-	Core      uint `json:"core"`
-	Stack     int  `json:"stack"`
-	CallStack int  `json:"frames"`
+	Core      uint  `json:"core"`
+	Stack     int   `json:"stack"`
+	CallStack int   `json:"frames"`
 	MP        int64 `json:"mp"`
-	Handlers  int  `json:"handlers"`
+	Handlers  int   `json:"handlers"`
 }
 
 // VMOpts configures a VM run.
@@ -299,16 +299,16 @@ var DefaultLimits = runtime.CoreLimits{CallStackMaxSize: 2048, StackMaxSize: 500
 
 // VMRun is the observation of one VM execution.
 type VMRun struct {
-	Outcome   Outcome
-	Log       *Log
-	Residues  []Residue
-	Steps     int64
-	MaxStack  int
-	MaxFrames int
-	MaxMP     int64
-	Catches   int64
-	Probes    []vvalue.Value
-	VM        *runtime.VM
+	Outcome    Outcome
+	Log        *Log
+	Residues   []Residue
+	Steps      int64
+	MaxStack   int
+	MaxFrames  int
+	MaxMP      int64
+	Catches    int64
+	Probes     []vvalue.Value
+	VM         *runtime.VM
 	CompileErr string
 }
 
